@@ -469,6 +469,47 @@ def cascade(b):
         run(layered, "complex_compliances_changed", mk_world, dict(collapse_tidal_modes=fl), f"collapse={int(fl)}", [("tides.complex_compliances_changed", fl)],
             "ensures (world has a tides model) the tides model is told that complex compliances changed, with the caller's collapse flag")
 
+    # entry links: the layer's temperature / pressure / strength setters start the cascade
+    Tn, Pn, eta_n, mu_n = R("T_given"), R("P_given"), R("eta_given"), R("mu_given")
+
+    def mk_layer2(rec):
+        rh = Obj(None, set_state=spy(rec, "rheology.set_state"))
+        return Obj(layer, rheology=rh, name="layer", _temperature=R("T_old"), _pressure=R("P_old"), temperature_pressure_changed=spy(rec, "self.temperature_pressure_changed"))
+    for meth, arg, val, field in (("set_temperature", "temperature", Tn, "_temperature"), ("set_pressure", "pressure", Pn, "_pressure")):
+        c, node = layer.lookup("methods", meth)
+        if node is None:
+            b.subset_exits.append(f"{FLP}::PhysicsLayer.{meth}: method not found")
+            continue
+        mfn = MethodFn(c, node)
+        b.functions[mfn.key] = mfn.info()
+        seen = []
+        o = mk_layer2([])
+        o.setattr("temperature_pressure_changed", lambda ex, node_, *a_, **k_: seen.append(o._attrs[field]))
+        ex = Exec(mfn, globals_env={}, contracts={}, opts=dict(definedness=False))
+        try:
+            paths = ex.run({"self": o, arg: val})
+        except SymExError as e:
+            b.subset_exits.append(f"{mfn.key}: {e}")
+            continue
+        ok = len(paths) == 1 and paths[0].outcome == "return" and (o._attrs[field] is val or o._attrs[field] == val) and len(seen) == 1 and (seen[0] is val or seen[0] == val)
+        ground(b, f"{mfn.key}::ensures:stores_then_notifies", mfn.key, f"ensures the new {arg} is stored and temperature_pressure_changed() is called once, after the store", ok, detail=f"stored {o._attrs[field]}; seen at the call {seen}")
+    c, node = layer.lookup("methods", "set_strength")
+    if node is not None:
+        mfn = MethodFn(c, node)
+        b.functions[mfn.key] = mfn.info()
+        rec = []
+        o = mk_layer2(rec)
+        ex = Exec(mfn, globals_env={}, contracts={}, opts=dict(definedness=False))
+        try:
+            paths = ex.run({"self": o, "viscosity": eta_n, "shear_modulus": mu_n})
+            ok = len(paths) == 1 and paths[0].outcome == "return" and len(rec) == 1 and rec[0][0] == "rheology.set_state"
+            if ok:
+                bound = dict(zip(("viscosity", "shear_modulus"), rec[0][1]), **rec[0][2])
+                ok = (bound.get("viscosity") is eta_n) and (bound.get("shear_modulus") is mu_n)
+            ground(b, f"{mfn.key}::ensures:forwards_strength", mfn.key, "ensures rheology.set_state receives (viscosity, shear_modulus) under their own names", ok, detail=str(rec)[:200])
+        except SymExError as e:
+            b.subset_exits.append(f"{mfn.key}: {e}")
+
 
 def orbit_derivatives(b):
     """PhysicsOrbit: the stored da/dt, de/dt, dn/dt of a tidal body are the functional API (single / dual semia_eccen_derivatives) evaluated at the
